@@ -513,5 +513,5 @@ def parts(tier):
         Part("derived-type-names", check_definition, cases=type_name_cases, exhaustive=True),
         Part("template-identifiers", check_definition, cases=template_name_cases, exhaustive=True),
         Part("reserved-field-positions", check_definition, cases=reserved_position_cases, exhaustive=True),
-        Part("generated", check_definition, strategy=generated_case(), examples=(250, 4000)),
+        Part("generated", check_definition, strategy=generated_case(), examples=(250, 20000)),
     ]
